@@ -67,8 +67,30 @@ pub open spec fn scan(s: Seq<char>, st: St) -> CellFormat
 
 // ---------------------------------------------------------------------------------------------
 // Layer (ii): declarative characterisation, written from the property text / number-format grammar.
+// Its vocabulary (p_*) is defined here independently of the automaton's (is_*): "d m h y s (any case)" etc.
 // ---------------------------------------------------------------------------------------------
 //@@ props C10
+
+/// c is the letter l (given in lower case) in either case
+pub open spec fn p_letter(c: char, l: char) -> bool { ascii_lower(c) == l }
+/// escape introducers: backslash (next char literal) and underscore (space of the width of the next char)
+pub open spec fn p_escape(c: char) -> bool { c == '\\' || c == '_' }
+/// date/time letters of the property: d m h y s, any case
+pub open spec fn p_date_letter(c: char) -> bool {
+    p_letter(c, 'd') || p_letter(c, 'm') || p_letter(c, 'h') || p_letter(c, 'y') || p_letter(c, 's')
+}
+/// letters of an elapsed-time bracket: h m s, any case
+pub open spec fn p_hms(c: char) -> bool { p_letter(c, 'h') || p_letter(c, 'm') || p_letter(c, 's') }
+pub open spec fn p_a(c: char) -> bool { p_letter(c, 'a') }
+/// what may not follow the keyword General unquoted (it would complete an A/P, AM/PM marker with General's `a`)
+pub open spec fn p_ampm_tail(c: char) -> bool { p_letter(c, 'p') || p_letter(c, 'm') || c == '/' }
+
+pub proof fn lemma_vocabulary(c: char)
+    ensures
+        p_escape(c) == is_esc(c), p_date_letter(c) == is_date_letter(c), p_hms(c) == is_hms(c), p_a(c) == is_a(c),
+        p_ampm_tail(c) == is_ampm_tail(c),
+{
+}
 
 pub open spec fn sq(c: char) -> Seq<char> { seq![c] }
 
@@ -82,15 +104,25 @@ pub proof fn lemma_scan_cons(c: char, rest: Seq<char>, st: St)
 }
 
 pub open spec fn no_char(s: Seq<char>, c: char) -> bool { forall|i: int| 0 <= i < s.len() ==> #[trigger] s[i] != c }
-pub open spec fn no_esc(s: Seq<char>) -> bool { forall|i: int| 0 <= i < s.len() ==> !is_esc(#[trigger] s[i]) }
+pub open spec fn no_esc(s: Seq<char>) -> bool { forall|i: int| 0 <= i < s.len() ==> !p_escape(#[trigger] s[i]) }
 pub open spec fn last_or(s: Seq<char>, d: char) -> char { if s.len() == 0 { d } else { s.last() } }
 
 // ---- (a) literals --------------------------------------------------------------------------
 
-/// inside a quoted literal nothing but the closing quote matters (weak form: the literal has no `\` and `_`)
-pub proof fn lemma_quoted_body_noesc(lit: Seq<char>, rest: Seq<char>, st: St)
-    requires st.quoted, !st.escaped, no_char(lit, '"'), no_esc(lit),
-    ensures scan(lit + rest, st) == scan(rest, St { prev: last_or(lit, st.prev), ..st }),
+/// scanning the characters of a quoted literal changes nothing but `prev`
+pub open spec fn quoted_body_ignored(lit: Seq<char>, rest: Seq<char>, st: St) -> bool {
+    scan(lit + rest, st) == scan(rest, St { prev: last_or(lit, st.prev), ..st })
+}
+
+/// PROPERTY FORM: inside a quoted literal nothing but the closing quote matters -- whatever the literal contains.
+/// FAILS on the real code (finding formats_1): the `_`/`\` arm precedes the quote arms, so `\` and `_` inside a literal
+/// make the next character (possibly the closing quote) invisible. See counterexample_quoted_underscore.
+/// The proof is the plain induction; it goes through as soon as the quote arms precede the escape arm (self-test S5).
+pub proof fn lemma_quoted_body(lit: Seq<char>, rest: Seq<char>, st: St)
+    requires st.quoted, !st.escaped, no_char(lit, '"'),
+    ensures
+        //# C10.quoted_ignored
+        quoted_body_ignored(lit, rest, st),
     decreases lit.len(),
 {
     if lit.len() == 0 {
@@ -99,10 +131,34 @@ pub proof fn lemma_quoted_body_noesc(lit: Seq<char>, rest: Seq<char>, st: St)
         let c = lit[0];
         assert(lit + rest =~= sq(c) + (lit.drop_first() + rest));
         lemma_scan_cons(c, lit.drop_first() + rest, st);
-        assert(c != '"' && !is_esc(c));
+        assert(c != '"');
+        let st2 = St { prev: c, ..st };
+        assert forall|i: int| 0 <= i < lit.drop_first().len() implies #[trigger] lit.drop_first()[i] != '"' by {
+            assert(lit.drop_first()[i] == lit[i + 1]);
+        }
+        lemma_quoted_body(lit.drop_first(), rest, st2);
+        if lit.drop_first().len() > 0 { assert(lit.drop_first().last() == lit.last()); }
+    }
+}
+
+/// weak form kept so that every OTHER break of quote handling is still caught: the literal has no `\` and `_`
+pub proof fn lemma_quoted_body_noesc(lit: Seq<char>, rest: Seq<char>, st: St)
+    requires st.quoted, !st.escaped, no_char(lit, '"'), no_esc(lit),
+    ensures
+        //# C10.quoted_ignored_noesc
+        quoted_body_ignored(lit, rest, st),
+    decreases lit.len(),
+{
+    if lit.len() == 0 {
+        assert(lit + rest =~= rest);
+    } else {
+        let c = lit[0];
+        assert(lit + rest =~= sq(c) + (lit.drop_first() + rest));
+        lemma_scan_cons(c, lit.drop_first() + rest, st);
+        assert(c != '"' && !p_escape(c));
         let st2 = St { prev: c, ..st };
         assert(step(st, c) == Step::Cont(st2));
-        assert forall|i: int| 0 <= i < lit.drop_first().len() implies lit.drop_first()[i] != '"' && !is_esc(#[trigger] lit.drop_first()[i]) by {
+        assert forall|i: int| 0 <= i < lit.drop_first().len() implies lit.drop_first()[i] != '"' && !p_escape(#[trigger] lit.drop_first()[i]) by {
             assert(lit.drop_first()[i] == lit[i + 1]);
         }
         lemma_quoted_body_noesc(lit.drop_first(), rest, st2);
@@ -131,15 +187,20 @@ pub proof fn lemma_quoted_ignored_noesc(lit: Seq<char>, rest: Seq<char>, st: St)
     lemma_scan_cons('"', rest, st2);
 }
 
-/// PROPERTY FORM (quoted text does not count, whatever it contains except `"`): the literal may contain `\` and `_`.
-/// Expected to FAIL on the real code: the `_`/`\` arm precedes the quote arms (finding formats_1).
+/// PROPERTY FORM of the complete literal; rests on lemma_quoted_body (which fails, finding formats_1)
 pub proof fn lemma_quoted_ignored(lit: Seq<char>, rest: Seq<char>, st: St)
     requires !st.quoted, !st.escaped, no_char(lit, '"'),
     ensures
-        //# C10.quoted_ignored
+        //# C10.quoted_literal_ignored
         quoted_literal_ignored(lit, rest, st),
 {
-    if no_esc(lit) { lemma_quoted_ignored_noesc(lit, rest, st); }
+    let s = sq('"') + lit + sq('"') + rest;
+    assert(s =~= sq('"') + (lit + (sq('"') + rest)));
+    lemma_scan_cons('"', lit + (sq('"') + rest), st);
+    let st1 = St { quoted: true, prev: '"', ..st };
+    lemma_quoted_body(lit, sq('"') + rest, st1);
+    let st2 = St { prev: last_or(lit, '"'), ..st1 };
+    lemma_scan_cons('"', rest, st2);
 }
 
 /// an unterminated quoted literal swallows the rest of the string
@@ -157,7 +218,7 @@ pub proof fn lemma_quoted_unterminated_noesc(lit: Seq<char>, st: St)
 
 /// the character after an unquoted `\` or `_` never counts
 pub proof fn lemma_escape_ignored(e: char, c: char, rest: Seq<char>, st: St)
-    requires !st.quoted, !st.escaped, is_esc(e),
+    requires !st.quoted, !st.escaped, p_escape(e),
     ensures
         //# C10.escape_ignored
         scan(sq(e) + sq(c) + rest, st) == scan(rest, St { prev: c, ..st }),
@@ -169,11 +230,11 @@ pub proof fn lemma_escape_ignored(e: char, c: char, rest: Seq<char>, st: St)
 
 // ---- brackets ------------------------------------------------------------------------------
 
-pub open spec fn br_special(c: char) -> bool { c == '[' || c == ']' || c == '"' || is_esc(c) || c == ';' }
+pub open spec fn br_special(c: char) -> bool { c == '[' || c == ']' || c == '"' || p_escape(c) || c == ';' }
 pub open spec fn clean(s: Seq<char>) -> bool { forall|i: int| 0 <= i < s.len() ==> !br_special(#[trigger] s[i]) }
 /// content of an elapsed-time bracket: h+ | m+ | s+ (any case)
 pub open spec fn elapsed(x: Seq<char>) -> bool {
-    x.len() >= 1 && is_hms(x[0]) && forall|i: int| 0 <= i < x.len() ==> ascii_lower(#[trigger] x[i]) == ascii_lower(x[0])
+    x.len() >= 1 && p_hms(x[0]) && forall|i: int| 0 <= i < x.len() ==> ascii_lower(#[trigger] x[i]) == ascii_lower(x[0])
 }
 
 pub proof fn lemma_bracket_body(done: Seq<char>, todo: Seq<char>, rest: Seq<char>, st: St)
@@ -196,7 +257,7 @@ pub proof fn lemma_bracket_body(done: Seq<char>, todo: Seq<char>, rest: Seq<char
         assert(todo + sq(']') + rest =~= sq(c) + (t2 + sq(']') + rest));
         lemma_scan_cons(c, t2 + sq(']') + rest, st);
         assert(!br_special(c));
-        let h2 = if st.hms && ascii_lower(c) == ascii_lower(st.prev) { true } else { st.prev == '[' && is_hms(c) };
+        let h2 = if st.hms && ascii_lower(c) == ascii_lower(st.prev) { true } else { st.prev == '[' && p_hms(c) };
         let st2 = St { hms: h2, prev: c, ..st };
         assert(step(st, c) == Step::Cont(st2));
         let d2 = done.push(c);
@@ -270,7 +331,7 @@ pub proof fn lemma_section_end(t1: Seq<char>, t2: Seq<char>, st: St)
 }
 
 pub proof fn lemma_date_letter(c: char, rest: Seq<char>, st: St)
-    requires neutral(st, false), is_date_letter(c),
+    requires neutral(st, false), p_date_letter(c),
     ensures
         //# C10.date_letter_is_datetime
         scan(sq(c) + rest, st) == CellFormat::DateTime,
@@ -281,7 +342,7 @@ pub proof fn lemma_date_letter(c: char, rest: Seq<char>, st: St)
 
 /// AM/PM or A/P marker (any case) at the head of s
 pub open spec fn ampm_at(s: Seq<char>) -> bool {
-    s.len() >= 1 && is_a(s[0]) && (
+    s.len() >= 1 && p_a(s[0]) && (
         (s.len() >= 5 && ascii_lower(s[1]) == 'm' && s[2] == '/' && ascii_lower(s[3]) == 'p' && ascii_lower(s[4]) == 'm')
         || (s.len() >= 3 && s[1] == '/' && ascii_lower(s[2]) == 'p'))
 }
@@ -361,7 +422,7 @@ pub open spec fn tok(s: Seq<char>, g: bool) -> Tok
             if no_esc(s.skip(1)) { Tok::End } else { Tok::Bad }
         } else if no_esc(s.subrange(1, 1 + j)) { Tok::Skip(j + 2) }
         else { Tok::Bad }   // side condition forced by finding formats_1: a literal containing `\` or `_`
-    } else if is_esc(c) {
+    } else if p_escape(c) {
         if s.len() >= 2 { Tok::Skip(2) } else { Tok::End }
     } else if c == ';' {
         Tok::End
@@ -371,11 +432,11 @@ pub open spec fn tok(s: Seq<char>, g: bool) -> Tok
         else if !clean(s.subrange(1, 1 + j)) { Tok::Bad }   // nested bracket / quote / escape / `;` inside a bracket: not in the grammar
         else if elapsed(s.subrange(1, 1 + j)) { Tok::Elapsed }
         else { Tok::Skip(j + 2) }
-    } else if is_a(c) {
+    } else if p_a(c) {
         if !g && ampm_at(s) { Tok::Date } else { Tok::Bad }   // side condition (c): a bare a/A is not in the grammar
-    } else if is_date_letter(c) {
+    } else if p_date_letter(c) {
         if g { Tok::Bad } else { Tok::Date }
-    } else if g && is_ampm_tail(c) {
+    } else if g && p_ampm_tail(c) {
         Tok::Bad
     } else if !g && general_at(s) {
         Tok::General
@@ -426,7 +487,7 @@ pub open spec fn wf(s: Seq<char>, g: bool) -> bool
 
 /// a character that is no token start and no date letter
 pub proof fn lemma_other_char(c: char, rest: Seq<char>, st: St, g: bool)
-    requires neutral(st, g), !br_special(c) || c == ']', !is_a(c), !is_date_letter(c), g ==> !is_ampm_tail(c),
+    requires neutral(st, g), !br_special(c) || c == ']', !p_a(c), !p_date_letter(c), g ==> !p_ampm_tail(c),
     ensures
         //# C10.other_char_ignored
         scan(sq(c) + rest, st) == scan(rest, St { prev: c, ..st }),
@@ -488,7 +549,7 @@ pub proof fn lemma_scan_classify(s: Seq<char>, st: St, g: bool)
             lemma_quoted_ignored_noesc(lit, rest, st);
             lemma_scan_classify(rest, St { prev: '"', ..st }, g);
         }
-    } else if is_esc(c) {
+    } else if p_escape(c) {
         if s.len() >= 2 {
             assert(s =~= sq(c) + sq(s[1]) + s.skip(2));
             lemma_escape_ignored(c, s[1], s.skip(2), st);
@@ -511,9 +572,9 @@ pub proof fn lemma_scan_classify(s: Seq<char>, st: St, g: bool)
         if !elapsed(content) {
             lemma_scan_classify(rest, St { prev: ']', ..st }, g);
         }
-    } else if is_a(c) {
+    } else if p_a(c) {
         lemma_ampm(s, st);
-    } else if is_date_letter(c) {
+    } else if p_date_letter(c) {
         lemma_date_letter(c, r1, st);
     } else if !g && general_at(s) {
         lemma_general(s, st);
@@ -525,7 +586,7 @@ pub proof fn lemma_scan_classify(s: Seq<char>, st: St, g: bool)
 }
 
 
-/// Why lemma_quoted_ignored cannot be proved: the automaton (= the code, by C10.scan_automaton) reads "x_"dd as Other,
+/// Why lemma_quoted_body cannot be proved (remove together with finding formats_1 once the code is fixed): the automaton (= the code, by C10.scan_automaton) reads "x_"dd as Other,
 /// i.e. this instance of the property is FALSE for the code (finding formats_1), it is not a proof gap.
 pub proof fn counterexample_quoted_underscore()
     ensures
